@@ -451,9 +451,55 @@ def wrapped_section(ctx):
               'container classes, leaves = function(leaf, companions selected along the path)')
 
 
+def wrapped_prelude_section(ctx):
+    """loops.wrapped(self, *args, **kwargs) called with at least one positional argument (how a lifted function is normally called; wrapper.__call__ forwards
+    the caller's containers: C18): the first positional argument is what is looped over, the remaining positionals and all keywords are its companions -
+    the result is self._wrapped(args[0], args[1:], kwargs).  Series first arguments are excluded by the path precondition (no pandas / numpy values);
+    calls with keywords only (first argument popped from kwargs by name) are bounded-checked only."""
+    from pyvc.th_cont import Lift, Args, Kw, ALEN, AAT, WRAP
+    m = ctx.mod('_loop')
+    fn = m.func('loops.wrapped')
+    ARGS, KWS = Const('ARGS', Args), Const('KWS', Kw)
+    NA = ALEN(ARGS)
+    q = Int('Q')
+    wit = dict(site=IntVal(0))
+    lift = Lift(by_contract=('_wrapped', 'function'))
+    ex = Exec(m, [lift, Conts(), TypePreds()], inline={'loops.wrapped': (m, fn)}, name='wrapped.positional')
+    st = State()
+    st.pc += [NA >= 1]
+    args_sv = SV('cvs', None, n=NA, at=lambda s_, j_: CV(AAT(ARGS, j_)))
+    outs = ex.run_function(st, 'loops.wrapped', [SV('obj', None, cls='loops')], {'*': args_sv, '**': SV('kwmap', KWS)})
+    ctx.absorb(ex)
+    ctx.record_function(m, 'loops.wrapped', fn, ex.stmts_executed,
+                        excluded=['no positional argument (the first argument given by keyword is popped from kwargs): bounded stand-in only',
+                                  'pd.Series first argument: path precondition "no value is a pandas / numpy object"'])
+    nret = 0
+    for o in outs:
+        hy = ex.facts + o.st.pc
+        if o.kind != 'return':
+            ctx.post('wrapped.positional.never_raises.%s' % o.val, hy, BoolVal(False), kind='safety', witness=wit, replay=rp('wrapped_prelude'))
+            continue
+        nret += 1
+        calls = [c for c in lift.calls if c[0] == '_wrapped']
+        ctx.post('wrapped.positional.one_call_of__wrapped_and_none_of_the_function', hy, BoolVal(len(calls) == 1 and not [c for c in lift.calls if c[0] == 'function']),
+                 witness=wit, replay=rp('wrapped_prelude'))
+        if len(calls) != 1 or o.val.kind != 'cv':
+            continue
+        c = calls[0][2]
+        ctx.post('wrapped.positional.returns_the_result_of__wrapped', hy, o.val.t == WRAP(val_of(c['arg']), c['A'], c['K']), witness=wit, replay=rp('wrapped_prelude'))
+        ctx.post('wrapped.positional.loops_over_the_first_positional_argument', hy, val_of(c['arg']) == AAT(ARGS, 0), witness=wit, replay=rp('wrapped_prelude'))
+        ctx.post('wrapped.positional.the_other_positionals_are_the_companions', hy + [0 <= q, q < NA - 1], And(ALEN(c['A']) == NA - 1, AAT(c['A'], q) == AAT(ARGS, q + 1)),
+                 witness=wit, replay=rp('wrapped_prelude'))
+        ctx.post('wrapped.positional.a_single_argument_has_no_positional_companions', hy + [NA == 1], ALEN(c['A']) == 0, witness=wit, replay=rp('wrapped_prelude'))
+        ctx.post('wrapped.positional.keywords_are_handed_on_unchanged', hy, c['K'] == KWS, witness=wit, replay=rp('wrapped_prelude'))
+    if nret == 0:
+        raise OutOfSubset('loops.wrapped has no returning path')
+    ctx.cover('wrapped.positional.two_arguments_reachable', [NA == 2])
+
+
 def attach_replays(ctx):
     """obligations generated inside the executor (measure decrease, preconditions of axioms, safety) get the native re-check of their section"""
-    kinds = (('is_iterable.', 'is_iterable'), ('len0.', 'len0'), ('_wrapped.', 'wrapped'), ('_item_by_i.', 'item_by_i'), ('_item_by_key.', 'item_by_key'), ('zipper.', 'zipper'), ('lens.', 'lens'),
+    kinds = (('wrapped.positional.', 'wrapped_prelude'), ('is_iterable.', 'is_iterable'), ('len0.', 'len0'), ('_wrapped.', 'wrapped'), ('_item_by_i.', 'item_by_i'), ('_item_by_key.', 'item_by_key'), ('zipper.', 'zipper'), ('lens.', 'lens'),
              ('as_list.', 'as_list'), ('as_tuple.', 'as_list'))
     for ob in ctx.obligations:
         short = ob.name[len(PROP) + 1:]
@@ -473,4 +519,5 @@ def build(ctx):
     ctx.guarded('zipper', lambda: zipper_section(ctx))
     ctx.guarded('_item_by', lambda: item_by_section(ctx))
     ctx.guarded('_wrapped', lambda: wrapped_section(ctx))
+    ctx.guarded('wrapped.positional', lambda: wrapped_prelude_section(ctx))
     attach_replays(ctx)
